@@ -7,7 +7,9 @@ Core subset (this file): scalar types with bounds (nullable through a type list)
 scalars, arrays with a single `items` schema and minItems / maxItems, objects with typed
 properties + `required` + boolean `additionalProperties`, objects that are pure maps
 (`additionalProperties: <schema>`, no properties), local `$ref` through a definitions environment,
-`anyOf` / `oneOf`. Draft-4 boolean exclusive bounds are normalised beforehand
+`anyOf` / `oneOf`, `allOf` of `$ref` parts with one inline object and an allOf-level `required`, and
+OpenAPI discriminated unions (`disc`: oneOf/anyOf of `$ref`s + `discriminator` with a written or implicit
+mapping; validity = the union as JSON Schema reads it AND the tag selecting a valid alternative). Draft-4 boolean exclusive bounds are normalised beforehand
 (`Dcg.Model.Constraints.normaliseSide`, theorem `C04.exclusive_normalise_sound`); here
 `exclMin` / `exclMax` are numbers. Regular expressions are an uninterpreted oracle `re pattern s`
 shared by both sides of every statement.
@@ -52,6 +54,11 @@ inductive Schema where
   /-- `{"allOf": [{"$ref": r}…, {"type":"object","properties": props,"required": req}, {"required": xreq}]}`
   (the inline object and the bare `required` part may be empty) -/
   | allOf (refs : List (List Char)) (props : List (List Char × Schema)) (req xreq : List (List Char))
+  /-- OpenAPI discriminated union
+  `{"oneOf" | "anyOf": [{"$ref": r}…], "discriminator": {"propertyName": prop, "mapping": {tag: "$ref"…}}}`
+  (`one` = written with `oneOf`). `mapping` sends tag values to definition names; the empty mapping is
+  the implicit one (every definition is selected by its own name). -/
+  | disc (one : Bool) (prop : List Char) (refs : List (List Char)) (mapping : List (List Char × List Char))
   deriving Inhabited
 
 abbrev Defs := List (List Char × Schema)
@@ -82,6 +89,24 @@ def hasKey (kvs : List (List Char × Json)) (k : List Char) : Bool := (kvs.looku
 
 /-- number of `true`s -/
 def countTrue (bs : List Bool) : Nat := (bs.filter id).length
+
+/-- the mapping in effect: as written, or — when none is written — each alternative under its own name -/
+def effMapping (refs : List (List Char)) (mapping : List (List Char × List Char)) :
+    List (List Char × List Char) :=
+  if mapping.isEmpty then refs.map (fun r => (r, r)) else mapping
+
+/-- every tag value that selects definition `r`: ALL keys of the mapping that point at it, in
+mapping order (`check_paths` of `Parser.__apply_discriminator_type`) -/
+def tagsOf (m : List (List Char × List Char)) (r : List Char) : List (List Char) :=
+  (m.filter (fun e => e.2 == r)).map (·.1)
+
+def Schema.isDisc : Schema → Bool
+  | .disc _ _ _ _ => true
+  | _ => false
+
+def Schema.discRefs : Schema → List (List Char)
+  | .disc _ _ refs _ => refs
+  | _ => []
 
 /-- JSON-Schema validity, fuel-indexed (`$ref` may be recursive). Out of fuel = not valid. -/
 def validJ (re : Regex) : Nat → Defs → Schema → Json → Bool
@@ -126,6 +151,27 @@ def validJ (re : Regex) : Nat → Defs → Schema → Json → Bool
         props.all (fun p => match kvs.lookup p.1 with
           | some x => validJ re f defs p.2 x
           | none => true)
+      | _ => false
+    | .disc one prop refs mapping =>
+      -- the union as JSON Schema reads it (the keyword `discriminator` is not a JSON-Schema keyword) AND
+      -- what OpenAPI adds: the value carries the tag, the tag selects one of the alternatives through
+      -- the mapping, and the value is valid under the selected alternative
+      match v with
+      | .obj kvs =>
+        (if one then countTrue (refs.map (fun r => match defs.lookup r with
+            | some t => validJ re f defs t v
+            | none => false)) == 1
+         else refs.any (fun r => match defs.lookup r with
+            | some t => validJ re f defs t v
+            | none => false)) &&
+        (match kvs.lookup prop with
+          | some (.str tag) =>
+            match (effMapping refs mapping).lookup tag with
+            | some r => refs.contains r && (match defs.lookup r with
+              | some t => validJ re f defs t v
+              | none => false)
+            | none => false
+          | _ => false)
       | _ => false
 
 /-! ### The decidable region `InSubset` of the `_partial` theorems -/
@@ -175,6 +221,11 @@ def Schema.inSubset : Schema → Bool
   | .allOf _ props req _ =>
     Schema.propsInSubset props && namesNodup (props.map (·.1)) &&
       req.all (fun k => (props.map (·.1)).contains k)
+  | .disc _ _ refs mapping =>
+    -- a JSON object has distinct keys; a written mapping names every alternative (else the generator
+    -- raises "Discriminator type is not found")
+    namesNodup (mapping.map (·.1)) &&
+      (mapping.isEmpty || refs.all (fun r => (mapping.map (·.2)).contains r))
 def Schema.propsInSubset : List (List Char × Schema) → Bool
   | [] => true
   | p :: ps => p.2.inSubset && Schema.propsInSubset ps
@@ -235,6 +286,24 @@ def validJN (re : Regex) : Nat → Defs → Schema → Json → Bool
           | some x => (!(req.contains p.1 || xreq.contains p.1) && x.isNull) || validJN re f defs p.2 x
           | none => true)
       | _ => false
+    | .disc one prop refs mapping =>
+      match v with
+      | .obj kvs =>
+        (if one then countTrue (refs.map (fun r => match defs.lookup r with
+            | some t => validJN re f defs t v
+            | none => false)) == 1
+         else refs.any (fun r => match defs.lookup r with
+            | some t => validJN re f defs t v
+            | none => false)) &&
+        (match kvs.lookup prop with
+          | some (.str tag) =>
+            match (effMapping refs mapping).lookup tag with
+            | some r => refs.contains r && (match defs.lookup r with
+              | some t => validJN re f defs t v
+              | none => false)
+            | none => false
+          | _ => false)
+      | _ => false
 
 mutual
 /-- no `oneOf` anywhere (a `Union` accepts when two alternatives match; `oneOf` does not); `allOf`
@@ -246,6 +315,7 @@ def Schema.oneOfFree : Schema → Bool
   | .anyOf alts => Schema.allOneOfFree alts
   | .oneOf _ => false
   | .allOf _ _ _ _ => false
+  | .disc _ _ _ _ => false
   | _ => true
 def Schema.propsOneOfFree : List (List Char × Schema) → Bool
   | [] => true
